@@ -1072,8 +1072,8 @@ func c20Run(job, tier string, deadline time.Time) *engine.Result {
 
 func c20Replay(rp json.RawMessage) *engine.Violation {
 	var p struct {
-		HTTP   []c20Req   `json:"http"`
-		WS     *c20WS     `json:"ws"`
+		HTTP   []c20Req       `json:"http"`
+		WS     *c20WS         `json:"ws"`
 		Accept *c20AcceptCase `json:"accept"`
 		MTU    uint32         `json:"mtu"`
 	}
